@@ -249,8 +249,16 @@ func (w *World) execMark(op Op) {
 		return
 	}
 	n := w.bySerial[op.A]
-	if n == nil || n == w.m.Genesis || n.MemOpt {
+	if n == nil || n == w.m.Genesis {
 		return
+	}
+	if n.MemOpt || (n.Parent != nil && n.Parent.MemOpt) {
+		// Best-chain history that may have left memory. The generator never marks it (see the known
+		// finding on marking beyond the prune depth); a hand written witness script sets B=1.
+		if op.B != 1 {
+			return
+		}
+		w.markBeyondPrune = true
 	}
 	oldTip := w.tip
 	known := n.Accepted
@@ -263,6 +271,11 @@ func (w *World) execMark(op Op) {
 		w.c.Fail("c17.mark-succeeds", "error:"+op.N, "MarkHeaderInvalid(n%d) failed: %s", n.Serial, err)
 	}
 	w.marked[n.Hash] = true
+	if known && n.Parent != nil {
+		// The parent may have become the tip of its branch again: a further child is then a plain
+		// extension (never depth limited) instead of a new fork. Both answers are accepted.
+		w.trimParents[n.Parent] = true
+	}
 	// everything on the marked header may be dropped from the repository
 	for _, x := range w.m.All {
 		if x.Accepted && w.underMarked(x) {
@@ -300,8 +313,8 @@ func (w *World) execUnmark(op Op) {
 				if v == "ok" && !was {
 					w.c.Probe("accepted-again-after-unmark")
 				}
-				if w.on("c17") && v != "ok" && !(x.Parent.MemOpt || x.Parent.Forget) {
-					w.c.Fail("c17.acceptable-after-unmark", classOnly(v), "after unmarking n%d, resubmitting n%d was answered %q", n.Serial, x.Serial, v)
+				if w.on("c17") && v == "marked-invalid" {
+					w.c.Fail("c17.acceptable-after-unmark", classOnly(v), "after unmarking n%d, resubmitting n%d was still refused as marked invalid", n.Serial, x.Serial)
 				}
 				if w.c.Stopped() {
 					return
@@ -462,7 +475,12 @@ func (w *World) execLocator(op Op) {
 		}
 		lastHeight = n.Height
 		if w.onBest(n) {
-			best++
+			// Best-chain hashes that are the first header of a (possibly ancestor) branch come from
+			// the side-branch clause, not from the back-off walk: the first header in memory, and a
+			// header whose parent has another accepted child. They do not count against max.
+			if !(n.Parent == nil || n.Parent.MemOpt || hasAcceptedChild(n.Parent, n)) || n == w.tip.Parent {
+				best++
+			}
 			if firstBest == nil {
 				firstBest = n
 			}
@@ -479,8 +497,8 @@ func (w *World) execLocator(op Op) {
 			"first best-chain hash of the locator is n%d (height %d); want the tip's parent n%d (height %d) so that the reply starts with our tip",
 			serialOf(firstBest), heightOf(firstBest), w.tip.Parent.Serial, w.tip.Parent.Height)
 	}
-	if best > max+1 {
-		w.c.Fail("c19.max", "too-many", "locator(max=%d) has %d best-chain hashes", max, best)
+	if best > max {
+		w.c.Fail("c19.max", "too-many", "locator(max=%d) has %d best-chain hashes that are not branch bases", max, best)
 	}
 
 	// the simulated conformant peer: every root-to-leaf path of the reference tree sharing a hash
